@@ -2,7 +2,7 @@
 
 package verifnode
 
-// C19, node level (thorough tier): the identifier of a block must commit to the exact ordered list of its
+// C19, node level: the identifier of a block must commit to the exact ordered list of its
 // transactions.  For blocks of 1..6 transactions produced by a real node the harness builds every copy whose body is
 // pad-equivalent under the merkle padding rule (tail transactions repeated) or differs in another way (a transaction
 // dropped, two swapped), keeps the header, and looks at what a second real node makes of it:
